@@ -32,9 +32,11 @@ theorem safe_site_shape (s : Site) (env : Env) (a b : Args)
     (hs : s.safeOn env a = true) (hl : sameLens a b s = true)
     (ha : ArgsOK a s = true) (hb : ArgsOK b s = true) :
     SameShape (render env a s) (render env b s) := by
-  unfold Site.safeOn at hs
   have hrun : (piecesSafeRun env a .dflt s.pieces).isSome = true := by
-    have := hs; simp only [Bool.and_eq_true] at this; exact this.2
+    unfold Site.safeOn at hs
+    cases hc : s.clientFree with
+    | true => exact Lemmas.clientFree_safeRun env a s.pieces (by simpa [Site.clientFree] using hc) .dflt
+    | false => simp only [hc, Bool.false_or, Bool.and_eq_true] at hs; exact hs.2
   cases hr : piecesSafeRun env a .dflt s.pieces with
   | none => simp [hr] at hrun
   | some s' =>
@@ -66,7 +68,7 @@ theorem quoted_ident_one_token (v : List Char) : run .dflt (quoteIdent v) = (.qi
 
 /-- `DELETE FROM t WHERE gid='%s'` as psql.DelVertex writes it. -/
 def rawSite : Site :=
-  { id := "", drv := "psql", file := "", fn := "", via := "", call := "Exec", tmpl := "",
+  { id := "", num := 0, drv := "psql", file := "", fn := "", via := "", call := "Exec", tmpl := "",
     pieces := [.atom (.lit "DELETE FROM t WHERE gid='"), .atom (.cli .client .raw (.param "key")), .atom (.lit "'")],
     bound := [] }
 
@@ -141,10 +143,10 @@ theorem table_extracted : extractionFailed = false := by decide
     breaks this theorem.  (Full strength would be `all_sites_safe` with an empty list: it does not
     hold today, see `listed_sites_break`.) -/
 theorem all_sites_safe_or_listed :
-    ∀ s ∈ sites, s.safeOn s.identEnv (s.argsWith benignStr) = true ∨ s.id ∈ knownUnsafe := by decide +kernel
+    ∀ s ∈ sites, s.safeOn s.identEnv (s.argsWith benignStr) = true ∨ s.num ∈ knownUnsafe := by decide +kernel
 
 /-- Unfolded consequence for the safe sites of today's table: shape independence for all strings. -/
-theorem unlisted_sites_shape_independent (s : Site) (hs : s ∈ sites) (hn : s.id ∉ knownUnsafe)
+theorem unlisted_sites_shape_independent (s : Site) (hs : s ∈ sites) (hn : s.num ∉ knownUnsafe)
     (b : Args) (hl : sameLens (s.argsWith benignStr) b s = true)
     (ha : ArgsOK (s.argsWith benignStr) s = true) (hb : ArgsOK b s = true) :
     SameShape (render s.identEnv (s.argsWith benignStr) s) (render s.identEnv b s) := by
@@ -154,12 +156,12 @@ theorem unlisted_sites_shape_independent (s : Site) (hs : s ∈ sites) (hn : s.i
 
 /-- The list is tight: every listed site of the table fails the check … -/
 theorem listed_sites_unsafe :
-    ∀ s ∈ sites, s.id ∈ knownUnsafe → s.safeOn s.identEnv (s.argsWith benignStr) = false := by decide +kernel
+    ∀ s ∈ sites, s.num ∈ knownUnsafe → s.safeOn s.identEnv (s.argsWith benignStr) = false := by decide +kernel
 
 /-- … and for every listed site the full statement is false on a concrete witness: a hostile value
     (a quote; a tab for validated graph names) changes the token shape.  These are the open findings. -/
 theorem listed_sites_break :
-    ∀ s ∈ sites, s.id ∈ knownUnsafe →
+    ∀ s ∈ sites, s.num ∈ knownUnsafe →
       ¬ SameShape (render s.identEnv (s.argsWith hostileStr) s) (render s.identEnv (s.argsWith benignStr) s) := by
   decide +kernel
 
